@@ -34,7 +34,13 @@ const Rule = "cases = (grammar, iteration-shuffle seed, queries) drawn from VERI
 	"table lookup) with `verify` and the analyses run all the same (`!query`, shuffled so that each gets to be the one that " +
 	"panics; judged against the Model only), caught panics of the FIRST closure followed by the same query (answered from its " +
 	"memo table), IsEmpty / IsSync / GetProduction on every cell incl. rows and columns that do not exist, FOLLOW of an " +
-	"undeclared non-terminal, every other grammar with a terminal named like a non-terminal; non-trivial = the grammar " +
+	"undeclared non-terminal, every other grammar with a terminal named like a non-terminal; symbol NAMES are a dimension: " +
+	"two cases out of five of every family have their symbols renamed into one of seven name schemes (names that are " +
+	"concatenations of other names, identifiers with shared prefixes/suffixes, non-terminals named like the written form of " +
+	"terminals and like terminals, the reserved suffixes, the empty name / epsilon / $ / names with spaces, tabs and the " +
+	"protocol's own markers, names that join with a space to other names, upper-case terminals), and a family builds grammars in which two different strings of symbols " +
+	"that the library writes (WriteString, what it hashes) or renders (String()) alike both occur as bodies and behind non-terminals and are both " +
+	"asked of one FIRST closure, in either order; non-trivial = the grammar " +
 	"has a nullable non-terminal, a left-corner cycle, or an unreachable/unproductive non-terminal; distinct = distinct (header, op list)"
 
 // ---------------------------------------------------------------- independent oracle
@@ -280,36 +286,121 @@ func showBody(b []string) string {
 
 func prodKey(h string, b []string) string { return h + "→" + showBody(b) }
 
-// Terminals named like non-terminals.  The library tells Terminal("S") and NonTerminal("S") apart by type, the line
-// protocol by name: in case files a word that starts with ' is the terminal named by the rest of the word, and the
-// canonical form (case files, printed answers on both sides) writes the quote exactly when the bare name is a declared
-// non-terminal.  A word that starts with ^ is the non-terminal named by the rest, declared or not (malformed grammars).
+// Names.  The library tells Terminal("S") and NonTerminal("S") apart by type and accepts ANY Go string as a name; the
+// line protocol has words.  A word is [marker] + EncName(name):
+//   - the marker ' says terminal, ^ says non-terminal (declared or not: malformed grammars); without marker the word is a
+//     non-terminal iff it is listed in `nonterms`.  The canonical form (case files, printed answers on both sides) writes '
+//     exactly when the bare word is a declared non-terminal, and ^ only for undeclared non-terminals;
+//   - EncName writes the empty name as %, and as %XX (upper-case hex, byte by byte) every byte <= 0x20, 0x7F, '%', the
+//     arrow → (it separates head and body in rendered productions), a leading ' or ^, and all bytes of the names "$" (the
+//     bare word $ is the endmarker) and "ε" (rendered empty body); everything else is written as it is.  DecName undoes
+//     it.  The Lean driver decodes words the same way (Driver/C10.lean: decName / encName), so the Model runs on the real
+//     names (orders by name: OrderTerminals, OrderNonTerminals, cmpProduction) and both sides print canonical words.
 
 const Q = "'"
 
-func Bare(w string) string { return strings.TrimPrefix(w, Q) }
+// EncName is the canonical word of a name.
+func EncName(s string) string {
+	if s == "" {
+		return "%"
+	}
+	all := s == "$" || s == "ε"
+	var b strings.Builder
+	for i := 0; i < len(s); {
+		if strings.HasPrefix(s[i:], "→") {
+			b.WriteString("%E2%86%92")
+			i += len("→")
+			continue
+		}
+		c := s[i]
+		if all || c <= 0x20 || c == 0x7f || c == '%' || (i == 0 && (c == '\'' || c == '^')) {
+			fmt.Fprintf(&b, "%%%02X", c)
+		} else {
+			b.WriteByte(c)
+		}
+		i++
+	}
+	return b.String()
+}
+
+func hexVal(c byte) int {
+	switch {
+	case c >= '0' && c <= '9':
+		return int(c - '0')
+	case c >= 'A' && c <= 'F':
+		return int(c-'A') + 10
+	case c >= 'a' && c <= 'f':
+		return int(c-'a') + 10
+	}
+	return -1
+}
+
+// DecName is the name a word (without marker) stands for.
+func DecName(w string) string {
+	if w == "%" {
+		return ""
+	}
+	if !strings.Contains(w, "%") {
+		return w
+	}
+	b := make([]byte, 0, len(w))
+	for i := 0; i < len(w); i++ {
+		if w[i] == '%' && i+2 < len(w) && hexVal(w[i+1]) >= 0 && hexVal(w[i+2]) >= 0 {
+			b = append(b, byte(hexVal(w[i+1])*16+hexVal(w[i+2])))
+			i += 2
+			continue
+		}
+		b = append(b, w[i])
+	}
+	return string(b)
+}
+
+// CanonWord rewrites a word of a case file into its canonical form (the bare word $ is the endmarker and stays).
+func CanonWord(w string) string {
+	switch {
+	case w == "$":
+		return w
+	case strings.HasPrefix(w, Q):
+		return Q + EncName(DecName(w[1:]))
+	case strings.HasPrefix(w, "^"):
+		return "^" + EncName(DecName(w[1:]))
+	}
+	return EncName(DecName(w))
+}
+
+// Bare is the name of the terminal a word stands for.
+func Bare(w string) string { return DecName(strings.TrimPrefix(w, Q)) }
+
+// NT is the non-terminal a word (with or without ^) stands for.
+func NT(w string) grammar.NonTerminal {
+	return grammar.NonTerminal(DecName(strings.TrimPrefix(w, "^")))
+}
+
+// ntWord is the canonical word of a non-terminal.
+func ntWord(n grammar.NonTerminal) string { return EncName(string(n)) }
 
 // pr renders library values with the names of the case file.
 type pr struct{ g *gx.G }
 
 func (n pr) term(t grammar.Terminal) string {
-	if n.g.IsNonTerm(string(t)) {
-		return Q + string(t)
+	w := EncName(string(t))
+	if n.g.IsNonTerm(w) {
+		return Q + w
 	}
-	return string(t)
+	return w
 }
 
 // symOf turns a word of the case file into a symbol.
 func (n pr) symOf(w string) grammar.Symbol {
 	switch {
 	case strings.HasPrefix(w, "^"):
-		return grammar.NonTerminal(w[1:])
+		return NT(w)
 	case strings.HasPrefix(w, Q):
-		return grammar.Terminal(w[1:])
+		return grammar.Terminal(Bare(w))
 	case n.g.IsNonTerm(w):
-		return grammar.NonTerminal(w)
+		return NT(w)
 	}
-	return grammar.Terminal(w)
+	return grammar.Terminal(Bare(w))
 }
 
 func (n pr) symNames(s grammar.String[grammar.Symbol]) []string {
@@ -325,7 +416,7 @@ func (n pr) symName(x grammar.Symbol) string {
 	case grammar.Terminal:
 		return n.term(v)
 	case grammar.NonTerminal:
-		return string(v)
+		return ntWord(v)
 	}
 	return "?"
 }
@@ -334,7 +425,7 @@ func (n pr) prodKeyOf(p *grammar.Production) string {
 	if p == nil {
 		return "<nil>"
 	}
-	return prodKey(string(p.Head), n.symNames(p.Body))
+	return prodKey(ntWord(p.Head), n.symNames(p.Body))
 }
 
 func (n pr) termSet(s set.Set[grammar.Terminal]) strset {
@@ -411,7 +502,7 @@ func (q pr) showTree(n parser.Node) string {
 		return q.term(v.Terminal) + "@" + lex
 	case *parser.InternalNode:
 		if v.Production == nil {
-			return "(" + string(v.NonTerminal) + "?)"
+			return "(" + ntWord(v.NonTerminal) + "?)"
 		}
 		var b strings.Builder
 		b.WriteString("(" + q.prodKeyOf(v.Production))
@@ -446,10 +537,10 @@ func (q pr) checkTree(n parser.Node, g gx.G, pre *[]string, leafNo *int) string 
 		*leafNo++
 	case *parser.InternalNode:
 		if v.Production == nil {
-			return "internal node " + string(v.NonTerminal) + " without production"
+			return "internal node " + ntWord(v.NonTerminal) + " without production"
 		}
 		if v.Production.Head != v.NonTerminal {
-			return "node " + string(v.NonTerminal) + " carries " + q.prodKeyOf(v.Production)
+			return "node " + ntWord(v.NonTerminal) + " carries " + q.prodKeyOf(v.Production)
 		}
 		*pre = append(*pre, q.prodKeyOf(v.Production))
 		if len(v.Children) != len(v.Production.Body) {
@@ -524,6 +615,7 @@ func Exec(c hx.Case) hx.Result {
 	var langK strset
 	langKk := -1
 	var first grammar.FIRST
+	asked := map[string]string{} // written form -> the string the closure `first` was asked for (first one)
 	var follow grammar.FOLLOW
 	var tableErr error
 	var table *predictive.ParsingTable
@@ -538,7 +630,7 @@ func Exec(c hx.Case) hx.Result {
 		for _, x := range body {
 			b = append(b, P.symOf(x))
 		}
-		return &grammar.Production{Head: grammar.NonTerminal(head), Body: b}
+		return &grammar.Production{Head: NT(head), Body: b}
 	}
 	mkString := func(ws []string) grammar.String[grammar.Symbol] {
 		var s grammar.String[grammar.Symbol]
@@ -572,13 +664,13 @@ func Exec(c hx.Case) hx.Result {
 					G.NonTerms = append(G.NonTerms, n)
 				}
 				if cfg != nil {
-					cfg.NonTerminals.Add(grammar.NonTerminal(n))
+					cfg.NonTerminals.Add(NT(n))
 				}
 			}
 		case f[0] == "start" && len(f) == 2:
 			G.Start = f[1]
 			if cfg != nil {
-				cfg.Start = grammar.NonTerminal(f[1])
+				cfg.Start = NT(f[1])
 			}
 		case f[0] == "prod" && len(f) >= 3 && f[2] == ":":
 			body := []string{}
@@ -630,13 +722,13 @@ func Exec(c hx.Case) hx.Result {
 		}
 		ns := make([]grammar.NonTerminal, len(G.NonTerms))
 		for i, n := range G.NonTerms {
-			ns[i] = grammar.NonTerminal(n)
+			ns[i] = NT(n)
 		}
 		ps := make([]*grammar.Production, len(G.Prods))
 		for i, p := range G.Prods {
 			ps[i] = mkProd(p.Head, p.Body)
 		}
-		return grammar.NewCFG(ts, ns, ps, grammar.NonTerminal(G.Start))
+		return grammar.NewCFG(ts, ns, ps, NT(G.Start))
 	}
 	ensureTable := func() {
 		if !tableBuilt {
@@ -653,10 +745,27 @@ func Exec(c hx.Case) hx.Result {
 		clone = cfg.Clone()
 		valid = cfg.Verify() == nil
 		orc, langK, langKk, first, follow, table, tableErr, tableBuilt = nil, nil, -1, nil, nil, nil, nil, false
+		asked = map[string]string{}
 		for _, t := range G.Terms {
 			if strings.HasPrefix(t, Q) {
 				tags["terminal-named-like-nonterminal"] = true
 			}
+		}
+		for _, w := range append(append([]string{}, G.Terms...), G.NonTerms...) {
+			if strings.Contains(w, "%") {
+				tags["names:escaped-in-protocol"] = true
+			}
+		}
+		for _, n := range G.NonTerms {
+			if len([]rune(DecName(n))) > 1 {
+				tags["names:multi-character-nonterminal"] = true
+			}
+		}
+		if len(WrittenFormCollisions(G, 3)) > 0 {
+			tags["names:strings-with-equal-written-form"] = true
+		}
+		if len(RenderedAlike(G, 3)) > 0 {
+			tags["names:strings-rendered-alike"] = true
 		}
 		if valid {
 			orc = NewOracle(G)
@@ -730,6 +839,9 @@ func Exec(c hx.Case) hx.Result {
 			res.Outs = append(res.Outs, "bad-op")
 			continue
 		}
+		for k := 1; k < len(f); k++ {
+			f[k] = CanonWord(f[k])
+		}
 		if applyDesc(f) {
 			res.Outs = append(res.Outs, "ok")
 			continue
@@ -780,7 +892,7 @@ func Exec(c hx.Case) hx.Result {
 				case "nullable":
 					got := strset{}
 					for n := range cfg.NullableNonTerminals().All() {
-						got[string(n)] = true
+						got[ntWord(n)] = true
 					}
 					out = "ok " + showSet(got)
 					if judge && showSet(got) != showSet(orc.Nullable) {
@@ -791,6 +903,16 @@ func Exec(c hx.Case) hx.Result {
 						first = cfg.ComputeFIRST()
 					}
 					s := mkString(f[1:])
+					if prev, ok := asked[WrittenForm(G, f[1:])]; !ok {
+						asked[WrittenForm(G, f[1:])] = strings.Join(f[1:], " ")
+					} else if prev != strings.Join(f[1:], " ") {
+						tags["first-asked-for-strings-with-equal-written-form"] = true
+					}
+					if prev, ok := asked["\x00"+Rendered(G, f[1:])]; !ok {
+						asked["\x00"+Rendered(G, f[1:])] = strings.Join(f[1:], " ")
+					} else if prev != strings.Join(f[1:], " ") {
+						tags["first-asked-for-strings-rendered-alike"] = true
+					}
 					var r *grammar.TerminalsAndEmpty
 					if cmd == "tryfirst" {
 						if k := hx.Try(func() { r = first(s) }); k != "" {
@@ -828,7 +950,7 @@ func Exec(c hx.Case) hx.Result {
 						follow = cfg.ComputeFOLLOW(cfg.ComputeFIRST())
 					}
 					A := strings.TrimPrefix(f[1], "^")
-					r := follow(grammar.NonTerminal(A))
+					r := follow(NT(A))
 					got := P.termSet(r.Terminals)
 					out = fmt.Sprintf("ok %s end=%v", showSet(got), r.IncludesEndmarker)
 					if !judge {
@@ -870,11 +992,11 @@ func Exec(c hx.Case) hx.Result {
 									if b < a {
 										a, b = b, a
 									}
-									items = append(items, fmt.Sprintf("ff %s: %s | %s", le.A, a, b))
+									items = append(items, fmt.Sprintf("ff %s: %s | %s", ntWord(le.A), a, b))
 								case strings.HasPrefix(msg, "ε is in FIRST(α)"):
-									items = append(items, fmt.Sprintf("ef %s: eps=%s other=%s", le.A, a, b))
+									items = append(items, fmt.Sprintf("ef %s: eps=%s other=%s", ntWord(le.A), a, b))
 								case strings.HasPrefix(msg, "ε is in FIRST(β)"):
-									items = append(items, fmt.Sprintf("ef %s: eps=%s other=%s", le.A, b, a))
+									items = append(items, fmt.Sprintf("ef %s: eps=%s other=%s", ntWord(le.A), b, a))
 								default:
 									items = append(items, "?"+msg)
 								}
@@ -914,12 +1036,12 @@ func Exec(c hx.Case) hx.Result {
 							if a == "$" {
 								ta = grammar.Endmarker
 							}
-							ps, sync, ok := predictive.VerifCell(table, grammar.NonTerminal(A), ta)
+							ps, sync, ok := predictive.VerifCell(table, NT(A), ta)
 							if !ok {
 								if judge && orc.AllReach && len(orc.Cell(A, a)) > 0 {
 									bad(i, "M[%s,%s] is empty, the textbook construction gives %v", A, a, orc.Cell(A, a))
 								}
-								if !table.IsEmpty(grammar.NonTerminal(A), ta) || table.IsSync(grammar.NonTerminal(A), ta) {
+								if !table.IsEmpty(NT(A), ta) || table.IsSync(NT(A), ta) {
 									bad(i, "M[%s,%s] has no entry, but IsEmpty=false or IsSync=true", A, a)
 								}
 								continue
@@ -940,13 +1062,13 @@ func Exec(c hx.Case) hx.Result {
 							if judge && orc.AllReach && strings.Join(keys, "|") != strings.Join(orc.Cell(A, a), "|") {
 								bad(i, "M[%s,%s] = %v, the textbook construction gives %v", A, a, keys, orc.Cell(A, a))
 							}
-							if !table.IsEmpty(grammar.NonTerminal(A), ta) != (len(keys) > 0) {
+							if !table.IsEmpty(NT(A), ta) != (len(keys) > 0) {
 								bad(i, "IsEmpty(%s,%s) disagrees with the stored productions %v", A, a, keys)
 							}
-							if table.IsSync(grammar.NonTerminal(A), ta) != (len(keys) == 0 && sync) {
+							if table.IsSync(NT(A), ta) != (len(keys) == 0 && sync) {
 								bad(i, "IsSync(%s,%s) disagrees with the stored entry (productions %v, sync %v)", A, a, keys, sync)
 							}
-							if gp, ok := table.GetProduction(grammar.NonTerminal(A), ta); ok != (len(keys) == 1) || (ok && P.prodKeyOf(gp) != keys[0]) {
+							if gp, ok := table.GetProduction(NT(A), ta); ok != (len(keys) == 1) || (ok && P.prodKeyOf(gp) != keys[0]) {
 								bad(i, "GetProduction(%s,%s) = %s, %v; the entry holds %v", A, a, P.prodKeyOf(gp), ok, keys)
 							}
 						}
@@ -968,17 +1090,17 @@ func Exec(c hx.Case) hx.Result {
 							bad(i, "the table iterates %d rows x %d columns, the grammar has %d non-terminals and %d terminals + endmarker", len(trows), len(tcols), len(rows), len(cols)-1)
 						}
 						// a second run of the analyses (other iteration orders) yields equal sets (EqTerminalsAndEmpty / …Endmarker)
-					f2 := cfg.Clone().ComputeFIRST()
-					fo2 := cfg.Clone().ComputeFOLLOW(f2)
-					f1 := cfg.ComputeFIRST()
-					fo1 := cfg.ComputeFOLLOW(f1)
-					for _, A := range rows {
-						s := grammar.String[grammar.Symbol]{grammar.NonTerminal(A)}
-						if !grammar.EqTerminalsAndEmpty(f1(s), f2(s)) || !grammar.EqTerminalsAndEndmarker(fo1(grammar.NonTerminal(A)), fo2(grammar.NonTerminal(A))) {
-							bad(i, "two runs of ComputeFIRST / ComputeFOLLOW on one grammar disagree on %s", A)
+						f2 := cfg.Clone().ComputeFIRST()
+						fo2 := cfg.Clone().ComputeFOLLOW(f2)
+						f1 := cfg.ComputeFIRST()
+						fo1 := cfg.ComputeFOLLOW(f1)
+						for _, A := range rows {
+							s := grammar.String[grammar.Symbol]{NT(A)}
+							if !grammar.EqTerminalsAndEmpty(f1(s), f2(s)) || !grammar.EqTerminalsAndEndmarker(fo1(NT(A)), fo2(NT(A))) {
+								bad(i, "two runs of ComputeFIRST / ComputeFOLLOW on one grammar disagree on %s", A)
+							}
 						}
-					}
-					// a second construction (other iteration orders) yields an Equal table
+						// a second construction (other iteration orders) yields an Equal table
 						if t2, _ := predictive.BuildParsingTable(cfg.Clone()); !table.Equal(t2) || !t2.Equal(table) {
 							bad(i, "two constructions of the parsing table of one grammar are not Equal")
 						}
@@ -993,8 +1115,8 @@ func Exec(c hx.Case) hx.Result {
 					if a == "$" {
 						ta = grammar.Endmarker
 					}
-					empty, sync := table.IsEmpty(grammar.NonTerminal(A), ta), table.IsSync(grammar.NonTerminal(A), ta)
-					gp, ok := table.GetProduction(grammar.NonTerminal(A), ta)
+					empty, sync := table.IsEmpty(NT(A), ta), table.IsSync(NT(A), ta)
+					gp, ok := table.GetProduction(NT(A), ta)
 					pk := "-"
 					if ok {
 						pk = P.prodKeyOf(gp)
@@ -1086,7 +1208,7 @@ func Exec(c hx.Case) hx.Result {
 							bad(i, "ast %s: the yield of the tree is %s", short(w), short(y))
 						}
 						leaf := 0
-						if in, ok := root.(*parser.InternalNode); !ok || string(in.NonTerminal) != G.Start {
+						if in, ok := root.(*parser.InternalNode); !ok || ntWord(in.NonTerminal) != G.Start {
 							bad(i, "ast %s: the root is not the start symbol", short(w))
 						} else if msg := P.checkTree(root, G, &pre, &leaf); msg != "" {
 							bad(i, "ast %s: %s", short(w), msg)
@@ -1284,11 +1406,11 @@ func (q pr) showVerify(err error) string {
 		} else if _, ok := between(msg, "no production rule for start symbol ", ""); ok {
 			items = append(items, "start-prod")
 		} else if n, ok := between(msg, "no production rule for non-terminal symbol ", ""); ok {
-			items = append(items, "no-prod:"+n)
+			items = append(items, "no-prod:"+EncName(n))
 		} else if n, ok := between(msg, "production head ", " not in the set of non-terminal symbols"); ok {
-			items = append(items, "head:"+n)
+			items = append(items, "head:"+EncName(n))
 		} else if n, ok := between(msg, "non-terminal symbol ", " not in the set of non-terminal symbols"); ok {
-			items = append(items, "nonterm:"+n)
+			items = append(items, "nonterm:"+EncName(n))
 		} else if t, ok := between(msg, "terminal symbol ", " not in the set of terminal symbols"); ok {
 			if u, err := strconv.Unquote(t); err == nil {
 				t = u
@@ -1427,7 +1549,8 @@ func (o *Oracle) Simulate(w []string, lexAt, tokAt, prodAt int) (string, []strin
 	return "accept", evs
 }
 
-// conflictOrder lists the cells named by the errors of BuildParsingTable, in the order reported.
+// conflictOrder lists the cells named by the errors of BuildParsingTable, in the order reported.  The error type is not
+// exported, so each message is matched against the heading the code prints for every (row, column) of the grammar.
 func conflictOrder(err error, q pr) []string {
 	if err == nil {
 		return nil
@@ -1437,28 +1560,30 @@ func conflictOrder(err error, q pr) []string {
 	if !ok {
 		return []string{"?" + err.Error()}
 	}
+	rows := append([]string{}, q.g.NonTerms...)
+	sort.Strings(rows)
+	rows = dedupSorted(rows)
+	cols := append([]string{}, q.g.Terms...)
+	sort.Strings(cols)
+	cols = append(dedupSorted(cols), "$")
 	for _, e := range me.Unwrap() {
 		msg := e.Error()
-		const pre = "multiple productions at M["
-		j := strings.Index(msg, "]:")
-		if !strings.HasPrefix(msg, pre) || j < 0 {
-			out = append(out, "?"+msg)
-			continue
-		}
-		inner := msg[len(pre):j]
-		k := strings.Index(inner, ", ")
-		if k < 0 {
-			out = append(out, "?"+inner)
-			continue
-		}
-		a := inner[k+2:]
-		if a != "$" {
-			if u, err := strconv.Unquote(a); err == nil {
-				a = u
+		found := ""
+		for _, A := range rows {
+			for _, a := range cols {
+				ta := grammar.Terminal(Bare(a))
+				if a == "$" {
+					ta = grammar.Endmarker
+				}
+				if found == "" && strings.HasPrefix(msg, fmt.Sprintf("multiple productions at M[%s, %s]:\n", NT(A), ta)) {
+					found = A + "/" + a
+				}
 			}
-			a = q.term(grammar.Terminal(a))
 		}
-		out = append(out, inner[:k]+"/"+a)
+		if found == "" {
+			found = "?" + strings.ReplaceAll(msg, "\n", " ")
+		}
+		out = append(out, found)
 	}
 	return out
 }
@@ -2031,6 +2156,239 @@ func FaultQueries(r *hx.Rand, ws []string, perWord int) []string {
 	return ops
 }
 
+// ---------------------------------------------------------------- symbol names as a generator dimension
+
+// The property quantifies over all grammars, and the library accepts any Go string as the name of a symbol.  The code
+// looks symbols and strings of symbols up in hash tables that hash the WRITTEN form (non-terminals by name, terminals
+// quoted, strings without separator) and compare by value, orders rows and columns by name, and makes new names by
+// appending reserved suffixes; so names are a dimension of the input space like shapes are.  A NameScheme is a pool of
+// raw names; Rename maps the symbols of a generated grammar injectively into it.
+
+type NameScheme struct {
+	Name string
+	NT   []string // the first three are chosen so that two different strings over them are written alike
+	T    []string // no double quote, backslash or control character (Model/C08.lean: symStr is `%q` for such names only)
+}
+
+var NameSchemes = []NameScheme{
+	// names that are concatenations of other names: [A B] / [AB], [AB A] / [A BA], [A A] / [AA], …
+	{"concatenations", []string{"A", "B", "AB", "BA", "AA", "ABA", "BB", "BAB", "AAB"}, []string{"a", "b", "ab", "ba"}},
+	// identifiers with shared prefixes and suffixes
+	{"words", []string{"expr", "list", "exprlist", "ex", "pr", "term", "listterm", "exprterm", "prlist"}, []string{"x", ",", "id", "idx"}},
+	// non-terminals named like the written form of terminals ("a" with the quotes) and like terminals (a)
+	{"like-terminals", []string{`"a"`, `"b"`, `"a""b"`, "a", `"ab"`, "b", `"`, `""`, "ab"}, []string{"a", "b", "ab", "c"}},
+	// the suffixes AddNewNonTerminal appends
+	{"reserved-suffixes", []string{"S", "′", "S′", "S″", "S′′", "S₁", "S₂", "₁", "S′₁"}, []string{"a", "a′", "′", "₁"}},
+	// the empty name, names that look like ε, the endmarker, the protocol's own markers and separators
+	{"odd", []string{"", "ε", "εε", "$", " ", "A B", "→", "'", "^A", "%", "A→a", "\t", "%41", "S'"},
+		[]string{"", "ε", "$", " ", "a b", "'", "^", "%", "%61", "→"}},
+	// names with spaces: [A B] / ["A B"] are rendered alike (String[Symbol].String() joins the symbols with a space)
+	{"spaces", []string{"A", "B", "A B", "B A", "A B A", " ", "A  B", `"a" "b"`, "B  A"}, []string{"a", "b", "a b", " b"}},
+	// terminals in upper case: named like the non-terminals, and sorted among them
+	{"upper-case-terminals", []string{"S", "A", "B", "C", "D", "E", "U", "V", "N"}, []string{"A", "S", "B", "a", "Z0"}},
+}
+
+func pickNames(r *hx.Rand, pool []string, k int, prefix bool) []string {
+	p := append([]string{}, pool...)
+	if !prefix || k > len(p) {
+		for i := len(p) - 1; i > 0; i-- {
+			j := r.Intn(i + 1)
+			p[i], p[j] = p[j], p[i]
+		}
+	}
+	for i := len(p); i < k; i++ { // pool too small: make more names out of it
+		p = append(p, pool[i%len(pool)]+strings.Repeat("x", i/len(pool)))
+	}
+	p = p[:k]
+	for i := len(p) - 1; i > 0; i-- { // which symbol gets which name
+		j := r.Intn(i + 1)
+		p[i], p[j] = p[j], p[i]
+	}
+	return p
+}
+
+// Rename maps the non-terminals and terminals of g (plain words) injectively to names of the scheme and returns the
+// grammar in canonical words.  prefix: take the first names of the pool (the colliding ones) instead of a random subset.
+func Rename(r *hx.Rand, g gx.G, sc NameScheme, prefix bool) gx.G {
+	nts := pickNames(r, sc.NT, len(g.NonTerms), prefix)
+	ts := pickNames(r, sc.T, len(g.Terms), false)
+	ntw, tw, isNT := map[string]string{}, map[string]string{}, map[string]bool{}
+	for i, n := range g.NonTerms {
+		ntw[n] = EncName(nts[i])
+		isNT[ntw[n]] = true
+	}
+	for i, t := range g.Terms {
+		w := EncName(ts[i])
+		if isNT[w] {
+			w = Q + w
+		}
+		tw[t] = w
+	}
+	h := gx.G{Start: ntw[g.Start]}
+	for _, n := range g.NonTerms {
+		h.NonTerms = append(h.NonTerms, ntw[n])
+	}
+	for _, t := range g.Terms {
+		h.Terms = append(h.Terms, tw[t])
+	}
+	for _, p := range g.Prods {
+		q := gx.P{Head: ntw[p.Head]}
+		for _, x := range p.Body {
+			if g.IsNonTerm(x) {
+				q.Body = append(q.Body, ntw[x])
+			} else {
+				q.Body = append(q.Body, tw[x])
+			}
+		}
+		h.Prods = append(h.Prods, q)
+	}
+	return DropOrderTies(h)
+}
+
+// written is what the library writes for a symbol given as a canonical word (Symbol.String()).
+func written(g gx.G, w string) string {
+	if g.IsNonTerm(w) || strings.HasPrefix(w, "^") {
+		return string(NT(w))
+	}
+	return strconv.Quote(Bare(w))
+}
+
+// WrittenForm is what grammar.WriteString writes for a string of symbols: the symbols one after the other.
+func WrittenForm(g gx.G, ws []string) string {
+	var b strings.Builder
+	for _, w := range ws {
+		b.WriteString(written(g, w))
+	}
+	return b.String()
+}
+
+// Rendered is String[Symbol].String(): the written symbols joined by a space, ε for the empty string.
+func Rendered(g gx.G, ws []string) string {
+	if len(ws) == 0 {
+		return "ε"
+	}
+	parts := make([]string, len(ws))
+	for i, w := range ws {
+		parts[i] = written(g, w)
+	}
+	return strings.Join(parts, " ")
+}
+
+// WrittenFormCollisions: groups of two or more different symbol strings of length <= k (the empty string included)
+// over the grammar's symbols that are written alike (WriteString: no separator).
+func WrittenFormCollisions(g gx.G, k int) [][][]string { return collisions(g, k, WrittenForm, "") }
+
+// RenderedAlike: the same for String() (joined by a space).
+func RenderedAlike(g gx.G, k int) [][][]string { return collisions(g, k, Rendered, "ε") }
+
+func collisions(g gx.G, k int, form func(gx.G, []string) string, empty string) [][][]string {
+	by := map[string][][]string{empty: {{}}}
+	var order []string
+	for _, s := range Strings(g, k) {
+		wf := form(g, s)
+		if by[wf] == nil {
+			order = append(order, wf)
+		}
+		by[wf] = append(by[wf], s)
+	}
+	var out [][][]string
+	if len(by[empty]) > 1 {
+		out = append(out, by[empty])
+	}
+	for _, wf := range order {
+		if wf != empty && len(by[wf]) > 1 {
+			out = append(out, by[wf])
+		}
+	}
+	return out
+}
+
+// DropOrderTies removes a production when an earlier one with the same head has as many non-terminals, as many terminals
+// and the same rendering (String[Symbol].String(): the written symbols joined by a space).  cmpProduction answers 0 for
+// such a pair, so OrderNonTerminals (which Conflicts() reports its rows by) sorts them in an order that depends on the
+// hash-set iteration; only names with spaces or quotes can do that.  Reported as an observation on OrderNonTerminals.
+func DropOrderTies(g gx.G) gx.G {
+	seen := map[string]bool{}
+	var ps []gx.P
+	for _, p := range g.Prods {
+		nn, parts := 0, []string{}
+		for _, x := range p.Body {
+			if g.IsNonTerm(x) {
+				nn++
+			}
+			parts = append(parts, written(g, x))
+		}
+		k := fmt.Sprintf("%s\x00%d\x00%d\x00%s", p.Head, nn, len(p.Body)-nn, strings.Join(parts, " "))
+		if !seen[k] {
+			seen[k] = true
+			ps = append(ps, p)
+		}
+	}
+	g.Prods = ps
+	return g
+}
+
+// MaybeRename renames two grammars out of five (k is the number of the case in its family).
+func MaybeRename(r *hx.Rand, g gx.G, k int) (gx.G, string) {
+	if k%5 != 1 && k%5 != 3 {
+		return g, "plain"
+	}
+	sc := NameSchemes[r.Intn(len(NameSchemes))]
+	return Rename(r, g, sc, r.Chance(1, 2)), sc.Name
+}
+
+// Colliding builds a grammar in which two different strings of symbols that are written alike both occur: as bodies,
+// and behind a non-terminal inside a body (where ComputeFOLLOW, IsLL1 and BuildParsingTable ask the FIRST closure for
+// them).  It returns the grammar and the colliding strings (nil when the names of the scheme give none).
+func Colliding(r *hx.Rand, g gx.G, sc NameScheme) (gx.G, [][]string) {
+	for len(g.NonTerms) < 3 { // three names are what a collision among non-terminals needs
+		n := []string{"X1", "X2", "X3"}[len(g.NonTerms)-1]
+		g.NonTerms = append(g.NonTerms, n)
+		g.Prods = append(g.Prods, gx.P{Head: n, Body: []string{hx.Pick(r, g.Terms)}})
+		if r.Chance(1, 2) {
+			g.Prods = append(g.Prods, gx.P{Head: n})
+		}
+		if r.Chance(2, 3) {
+			g.Prods = append(g.Prods, gx.P{Head: g.Start, Body: []string{hx.Pick(r, g.Terms), n}})
+		}
+	}
+	g = Rename(r, g, sc, true)
+	groups := append(WrittenFormCollisions(g, 3), RenderedAlike(g, 3)...)
+	if len(groups) == 0 {
+		return g, nil
+	}
+	grp := groups[r.Intn(len(groups))]
+	i := r.Intn(len(grp))
+	j := r.Intn(len(grp) - 1)
+	if j >= i {
+		j++
+	}
+	pair := [][]string{grp[i], grp[j]}
+	seen := map[string]bool{}
+	for _, p := range g.Prods {
+		seen[prodKey(p.Head, p.Body)] = true
+	}
+	add := func(p gx.P) {
+		if !seen[prodKey(p.Head, p.Body)] {
+			seen[prodKey(p.Head, p.Body)] = true
+			g.Prods = append(g.Prods, p)
+		}
+	}
+	for _, s := range pair {
+		switch r.Intn(4) {
+		case 0: // a body
+			add(gx.P{Head: hx.Pick(r, g.NonTerms), Body: append([]string{}, s...)})
+		case 1: // behind a non-terminal that stands behind a terminal
+			add(gx.P{Head: hx.Pick(r, g.NonTerms), Body: append([]string{hx.Pick(r, g.Terms), hx.Pick(r, g.NonTerms)}, s...)})
+		case 2: // behind a non-terminal at the front
+			add(gx.P{Head: hx.Pick(r, g.NonTerms), Body: append([]string{hx.Pick(r, g.NonTerms)}, s...)})
+		case 3: // a body with a terminal behind it
+			add(gx.P{Head: hx.Pick(r, g.NonTerms), Body: append(append([]string{}, s...), hx.Pick(r, g.Terms))})
+		}
+	}
+	return DropOrderTies(g), pair
+}
+
 func descLine(kind string, p gx.P) string {
 	return strings.TrimRight(kind+" "+p.Head+" : "+strings.Join(p.Body, " "), " ")
 }
@@ -2064,7 +2422,8 @@ func Main(run *hx.Run) {
 					g.Prods = append(g.Prods, gx.P{Head: "S", Body: []string{"U"}})
 				}
 			}
-			c := hx.Case{Header: fmt.Sprintf("comp=analysis mix=%s shuffle=%d", name, r.Intn(1<<30)), Ops: Queries(r, g, 160)}
+			g, nm := MaybeRename(r, g, k)
+			c := hx.Case{Header: fmt.Sprintf("comp=analysis mix=%s names=%s shuffle=%d", name, nm, r.Intn(1<<30)), Ops: Queries(r, g, 160)}
 			run.Do("analysis", c, Exec)
 			if len(g.NonTerms) <= 3 && len(g.Prods) <= 6 && (run.Thorough() || k%4 == 0) {
 				msg, exact := CrossCheck(g, 7, 4000)
@@ -2089,8 +2448,8 @@ func Main(run *hx.Run) {
 	{
 		r := run.R.Fork("repeats")
 		for k := 0; k < run.Scale(250); k++ {
-			g := WithRepeats(r, gx.Random(r, mixes[names[r.Intn(len(names))]]))
-			c := hx.Case{Header: fmt.Sprintf("comp=analysis mix=repeats shuffle=%d", r.Intn(1<<30)), Ops: Queries(r, g, 60)}
+			g, nm := MaybeRename(r, WithRepeats(r, gx.Random(r, mixes[names[r.Intn(len(names))]])), k)
+			c := hx.Case{Header: fmt.Sprintf("comp=analysis mix=repeats names=%s shuffle=%d", nm, r.Intn(1<<30)), Ops: Queries(r, g, 60)}
 			run.Do("analysis", c, Exec)
 		}
 	}
@@ -2098,10 +2457,10 @@ func Main(run *hx.Run) {
 	{
 		r := run.R.Fork("eps-chain-family")
 		for k := 0; k < run.Scale(30); k++ {
-			g := EpsChain(r, r.Range(3, 6))
+			g, nm := MaybeRename(r, EpsChain(r, r.Range(3, 6)), k)
 			ops := Queries(r, g, 40)
 			for sd := 0; sd < 12; sd++ {
-				c := hx.Case{Header: fmt.Sprintf("comp=analysis mix=eps-chain-family shuffle=%d", r.Intn(1<<30)), Ops: ops}
+				c := hx.Case{Header: fmt.Sprintf("comp=analysis mix=eps-chain-family names=%s shuffle=%d", nm, r.Intn(1<<30)), Ops: ops}
 				run.Do("analysis", c, Exec)
 			}
 		}
@@ -2110,7 +2469,7 @@ func Main(run *hx.Run) {
 	{
 		r := run.R.Fork("in-place")
 		for k := 0; k < run.Scale(120); k++ {
-			g := gx.Random(r, mixes[names[r.Intn(len(names))]])
+			g, nm := MaybeRename(r, gx.Random(r, mixes[names[r.Intn(len(names))]]), k)
 			ops := Queries(r, g, 30)
 			g2 := g
 			for round := 0; round < 2; round++ {
@@ -2127,7 +2486,7 @@ func Main(run *hx.Run) {
 					ops = append(ops, queriesOnly(r, g2, 20)...)
 				}
 			}
-			c := hx.Case{Header: fmt.Sprintf("comp=analysis mix=in-place shuffle=%d", r.Intn(1<<30)), Ops: ops}
+			c := hx.Case{Header: fmt.Sprintf("comp=analysis mix=in-place names=%s shuffle=%d", nm, r.Intn(1<<30)), Ops: ops}
 			run.Do("analysis", c, Exec)
 		}
 	}
@@ -2135,11 +2494,12 @@ func Main(run *hx.Run) {
 	{
 		r := run.R.Fork("malformed")
 		for k := 0; k < run.Scale(160); k++ {
-			g := Malform(r, gx.Random(r, mixes[names[r.Intn(len(names))]]), k)
+			g, nm := MaybeRename(r, gx.Random(r, mixes[names[r.Intn(len(names))]]), k/2) // k/2: every kind of Malform meets renamed grammars
+			g = Malform(r, g, k)
 			if r.Chance(1, 5) {
 				g = Malform(r, g, r.Intn(MalformKinds))
 			}
-			c := hx.Case{Header: fmt.Sprintf("comp=analysis mix=malformed shuffle=%d", r.Intn(1<<30)), Ops: ForcedQueries(r, g)}
+			c := hx.Case{Header: fmt.Sprintf("comp=analysis mix=malformed names=%s shuffle=%d", nm, r.Intn(1<<30)), Ops: ForcedQueries(r, g)}
 			run.Do("analysis", c, Exec)
 		}
 	}
@@ -2148,7 +2508,7 @@ func Main(run *hx.Run) {
 	{
 		r := run.R.Fork("memo-and-accessors")
 		for k := 0; k < run.Scale(120); k++ {
-			g := gx.Random(r, mixes[names[r.Intn(len(names))]])
+			g, nm := MaybeRename(r, gx.Random(r, mixes[names[r.Intn(len(names))]]), k/2)
 			if k%2 == 1 {
 				g = SharedNames(r, g)
 			}
@@ -2164,7 +2524,30 @@ func Main(run *hx.Run) {
 			case 1:
 				ops = append(ops, "first "+hx.Pick(r, g.Terms)+" z", "first z")
 			}
-			c := hx.Case{Header: fmt.Sprintf("comp=analysis mix=memo-and-accessors shuffle=%d", r.Intn(1<<30)), Ops: ops}
+			c := hx.Case{Header: fmt.Sprintf("comp=analysis mix=memo-and-accessors names=%s shuffle=%d", nm, r.Intn(1<<30)), Ops: ops}
+			run.Do("analysis", c, Exec)
+		}
+	}
+	// different strings of symbols that the library writes alike (it hashes strings by their written form): both asked of
+	// one FIRST closure, in either order, and both inside bodies, where FOLLOW / IsLL1 / the table construction ask for them
+	{
+		r := run.R.Fork("name-collisions")
+		for k := 0; k < run.Scale(150); k++ {
+			sc := NameSchemes[k%len(NameSchemes)]
+			g, pair := Colliding(r, gx.Random(r, mixes[names[r.Intn(len(names))]]), sc)
+			ops := g.Lines()
+			for _, s := range pair {
+				ops = append(ops, strings.TrimRight("first "+strings.Join(s, " "), " "))
+			}
+			qs := queriesOnly(r, g, 80)
+			if k%2 == 1 { // FOLLOW, IsLL1 and the table before any query of ours
+				qs = append(qs[len(qs)-3-len(g.NonTerms):], qs[:len(qs)-3-len(g.NonTerms)]...)
+			}
+			ops = append(ops, qs...)
+			for i := len(pair) - 1; i >= 0; i-- {
+				ops = append(ops, strings.TrimRight("first "+strings.Join(pair[i], " "), " "))
+			}
+			c := hx.Case{Header: fmt.Sprintf("comp=analysis mix=name-collisions names=%s shuffle=%d", sc.Name, r.Intn(1<<30)), Ops: ops}
 			run.Do("analysis", c, Exec)
 		}
 	}
@@ -2184,7 +2567,23 @@ func Main(run *hx.Run) {
 				}
 			}
 		})
-		run.Stats.Extra["exhaustive_part"] = fmt.Sprintf("all %d grammars over {S,A} x {a} with 1-2 alternatives per non-terminal and bodies of length <=2, FIRST on every string of length <=3", n)
+		// the same grammars with the non-terminals called A and AA: [A A] / [AA], [A AA] / [AA A] / [A A A] are written alike
+		m := 0
+		Enumerate([]string{"A", "AA"}, []string{"a"}, 2, 2, func(g gx.G) {
+			m++
+			if m%2 == 0 { // every other one
+				return
+			}
+			ops := g.Lines()
+			if m%4 == 1 {
+				ops = append(ops, "first AA", "first A A", "first AA A", "first A AA")
+			} else {
+				ops = append(ops, "follow A", "follow AA", "ll1", "table")
+			}
+			c := hx.Case{Header: fmt.Sprintf("comp=analysis mix=exhaustive names=concatenations shuffle=%d", m), Ops: append(ops, queriesOnly(run.R, g, 1000)...)}
+			run.Do("analysis", c, Exec)
+		})
+		run.Stats.Extra["exhaustive_part"] = fmt.Sprintf("all %d grammars over {S,A} x {a} with 1-2 alternatives per non-terminal and bodies of length <=2, FIRST on every string of length <=3; every other one again with the non-terminals named A and AA", n)
 	}
 	run.Stats.Extra["oracle_crosschecked_by_enumeration"] = cross
 	run.Stats.Extra["oracle_equal_to_enumeration"] = crossExact
